@@ -4,10 +4,11 @@ import . "vh/vhlib"
 
 func main() {
 	Main(map[string]CmdFn{
-		"gen":   func(a []string) int { return RunGen(gens, a) },
-		"c13":   c13,
-		"c13hs": c13hs,
-		"c11":   c11,
-		"c12":   c12,
+		"gen":      func(a []string) int { return RunGen(gens, a) },
+		"c13":      c13,
+		"c13hs":    c13hs,
+		"c11":      c11,
+		"c12":      c12,
+		"c11stage": c11stageChild,
 	})
 }
